@@ -73,6 +73,13 @@ def make_problem(spec):
         p.lb[:] = -np.inf
         fixed = ~np.isfinite(p.ub)
         p.x0 = np.where(fixed, p.x0, p.ub) - float(spec["far_start"]) * (0.5 + rng.random(p.n))
+    if spec.get("shift"):
+        # the same problem translated far from the origin: x -> x + shift (boxes, start and minimiser move together)
+        sh = float(spec["shift"])
+        f0_, g0_ = p.fun, p.grad
+        p.fun = lambda x, f0_=f0_, sh=sh: f0_(x - sh)
+        p.grad = lambda x, g0_=g0_, sh=sh: g0_(x - sh)
+        p.lb, p.ub, p.x0 = p.lb + sh, p.ub + sh, p.x0 + sh
     if spec.get("fscale"):
         # the same problem in other units of the objective (values and gradients multiplied by a power of two: exact)
         k = float(spec["fscale"])
